@@ -75,7 +75,14 @@ def gen_cases(rng, tier):
         # Tor may send an asynchronous event between the command and its reply: the result is the same
         if rng.random() < 0.25:
             c['prelude'] = rng.choice(PRELUDES)
+        # an earlier request on the same connection, answered before this one is made (accepted with one or several lines,
+        # refused with one or several lines): what it was and how it ended has no bearing on this one's result
+        if rng.random() < 0.3:
+            c['earlier'] = rng.choice(sorted(EARLIER))
         yield c
+    for c in corpus():
+        for e in sorted(EARLIER):
+            yield dict(c, earlier=e)
 
 
 def plain_cases(rng, count, text):
@@ -99,6 +106,10 @@ def plain_cases(rng, count, text):
             yield {'call': rng.choice(['getconf', 'getconf1']), 'keys': [k], 'form': 'conf', 'values': vals}
 
 
+EARLIER = {'ok1': '250 OK\r\n', 'ok3': '250-Log=notice stdout\r\n250-Log=debug file x\r\n250 ORPort\r\n',
+           'rej1': '552 Unrecognized configuration key "Bogus"\r\n',
+           'rej2': '552-Unrecognized configuration key "Bogus"\r\n552 Unrecognized configuration key "Bogus2"\r\n',
+           'block': '250+info/names=\r\na -- b\r\nc=d\r\n.\r\n250 OK\r\n'}
 PRELUDES = ['650 FOO x\r\n', '650-CONF_CHANGED\r\n650-SocksPort=9999\r\n650 OK\r\n', '650+NS\r\nr a b\r\n.x\r\n.\r\n650 OK\r\n',
             '650-A=1\r\n650 B=2\r\n650 CIRC 1 BUILT\r\n']
 
@@ -148,6 +159,11 @@ def run_impl(c):
     out = []
     conf = c['call'].startswith('getconf')
     try:
+        if c.get('earlier'):
+            d0 = proto.get_conf('Log', 'ORPort') if c['earlier'].startswith('ok') else proto.get_conf('Bogus', 'Bogus2') if c['earlier'].startswith('rej') \
+                else proto.get_info('info/names')
+            d0.addErrback(lambda f: None)
+            proto.dataReceived(EARLIER[c['earlier']].encode('latin-1'))
         if c['call'] == 'getinfo_inc':
             got = []
             d = proto.get_info_incremental(c['keys'][0], got.append)
@@ -221,7 +237,7 @@ def run_cases(cases, drv, tier):
         spec = expected(c)
         allv = c.get('values', []) + c.get('lines', []) + [c.get('first', '')]
         nontriv = any(ch in v for v in allv for ch in '= "\'') or len(allv) > 2
-        tags = [c['call'], c['form'], 'inH' if in_h(c) else 'outsideH', 'after-event' if c.get('prelude') else 'reply-only']
+        tags = [c['call'], c['form'], 'inH' if in_h(c) else 'outsideH', 'after-event' if c.get('prelude') else 'reply-only', 'earlier=' + (c.get('earlier') or 'none')]
         res.append(Result(c, im, model, spec, in_h=in_h(c), nontrivial=nontriv, tags=tags))
     return res
 
